@@ -582,8 +582,9 @@ func init() {
 	reg(&propDef{id: "C11", level: "exploration", crashIsViol: false, stuckIsViol: true,
 		batches: []batch{{name: "flowfaults", quick: 2600, thorough: 60000},
 			{name: "enumerated", quick: 3, thorough: 80, enumKinds: 13, enumPos: 1, enumBases: 80},
-			{name: "slowdisk", params: map[string]string{"slowdisk": "1"}, quick: 32, thorough: 600}},
-		rule:    "each evaluation is one simulated transfer in which, after the ACT has been written towards the server, one fault is injected at a tape-chosen message: a direction (or both) goes silent, a link closes or starts failing writes, a destination write fails (optionally after a short write), a source read fails, the source file shrinks under the reader, or one process is stalled for T/2, 1.5T or 3T; non-trivial = the fault fired and termination, reports, fail lines and the goroutine-leak monitor were all evaluated; distinct = distinct (configuration + fault kind + hop, schedule-trace hash, tape hash)"})
+			{name: "slowdisk", params: map[string]string{"slowdisk": "1"}, quick: 32, thorough: 600},
+			{name: "resumefail", params: map[string]string{"resume": "1"}, quick: 500, thorough: 15000}},
+		rule:    "batch resumefail: transfers that resume over an older destination (-y, protocol 3/4) in which a local failure strikes - the source is cut right when its name goes out (before or during the prefix-hash exchange), a source read fails, a destination write fails - half of them under -t 0 (never time out): both sides still end, within the bound, with an error told to the peer and no worker left. Other batches: each evaluation is one simulated transfer in which, after the ACT has been written towards the server, one fault is injected at a tape-chosen message: a direction (or both) goes silent, a link closes or starts failing writes, a destination write fails (optionally after a short write), a source read fails, the source file shrinks under the reader, or one process is stalled for T/2, 1.5T or 3T; non-trivial = the fault fired and termination, reports, fail lines and the goroutine-leak monitor were all evaluated; distinct = distinct (configuration + fault kind + hop, schedule-trace hash, tape hash)"})
 	reg(&propDef{id: "C09", level: "exploration", crashIsViol: false,
 		batches: []batch{{name: "names", params: map[string]string{"mode": "system"}, quick: 1600, thorough: 60000},
 			{name: "archive", params: map[string]string{"mode": "archive"}, quick: 600, thorough: 20000}},
